@@ -27,7 +27,7 @@ CLAIMED["C13"] = ("4 C13", "Seeded simulation of checkpoint/restart: one-shot in
          "Restart points on the step grid (property precondition); crash = exception from a peer; sampled cut/crash schedules.",
          TECH + "; crash/restart equivalence against a one-shot reference execution, bit-exact")
 CLAIMED["C14"] = ("4 C14", "Seeded simulation of the adaptive controller under real and adversarial (scripted) error signals: invariants on the recorded trial schedule (contiguity, bounds, end exactly at ts[-1], dt_min, accept/reject rule in its weakest reading, shrinking on reject), bounded liveness via an analytic trial bound enforced by a deterministic call-event budget, and an independent value/decision oracle that re-executes the schedule with public non-adaptive single-step calls (recomputed RMS error norm, two-half-step values, interpolated outputs). The clause 'tightening tolerances reduces the true error' is not decided.",
-         "Preconditions dt >= dt_min and dt_min resolvable in the working dtype; stiffness kept inside the stability region at dt_min (a diverging scheme confirmed by re-execution is not judged); open known finding D7.",
+         "Preconditions dt >= dt_min and dt_min resolvable in the working dtype; stiffness kept inside the stability region at dt_min (a diverging scheme confirmed by re-execution is not judged); no open known finding (D7 fixed by 0681471).",
          TECH + "; controller schedule invariants + bounded liveness + re-execution reference model under adversarial error signal")
 NA = {}
 def main():
